@@ -90,7 +90,15 @@ PROPS = {
             "ESC ESC: poll(100 ms) is modelled as 'the next key press arrives within the window' (the harness delivers it as soon as the reader blocks)",
             "SIGWINCH / SIGTSTP / real select-poll timing are exercised by the harness only (thorough tier), not proved"],
         "unproved": ["C17_editor_no_panic_statement"],
-        "level_text": "Lean theorems about the input-queue model (a byte read consumes exactly one byte, fails only on hang-up, waiting "
+        "level_text": "EMACS MODE, UNCONDITIONAL in the model (round 13): C17_editor_no_panic_emacs - for helpers that do not panic, indent size <= 255, "
+                      "a completer start on a character boundary at or before the cursor, a stable segmenter and acceptable bindings (BindsI), if readline "
+                      "ends with the panic outcome then its final state is a D43 state; no open obligation: C17_open_emacs instantiates C17_Open with the "
+                      "concrete cross-step invariant J = UndoLogInv (the undo stack replays to the line), carried by a sixth structural pass (LogK / em_log, "
+                      "Lemmas/EditorLog.lean: logK_execute for every command but Undo, logK_nextCmd for both modes, logJ_preCmds for the emacs-mode "
+                      "sub-loops incl. their abort paths) over the Replays facts of every line-buffer method, C05_log_replay and C05_log_markers. VI MODE: the "
+                      "same theorem still rests on C17_Open (only its field pre - the dispatch loop keeps J - is not proved there: a vi abort needs the "
+                      "running-minimum mark / truncateClosed analysis). "
+                      "Lean theorems about the input-queue model (a byte read consumes exactly one byte, fails only on hang-up, waiting "
                       "loses nothing) and an executable model of the whole decoder and editor that is diffed against the real "
                       "Editor::readline on a pseudo-terminal for arbitrary byte streams; the no-panic / no-wedge / no-stall oracle runs "
                       "on the implementation's own observations. Editor level (helpers that do not panic, indent size fits u8, "
@@ -742,7 +750,7 @@ PROPS["C01"] = {
                      "the README tables and the byte-encoding table are transcribed by hand into Rl/Spec/Doc.lean",
                      "the oracle stops judging (never guesses) where it cannot follow the key grouping: byte strings outside the documented encodings, completion and vi-mode search sub-loops, input ending inside a group"],
     "unproved": ["C01_self_insert_once_statement: REFUTED as written (it quantifies over helpers whose hinter panics: C01_self_insert_once_counterexample); the theorem C01_self_insert_once holds for every helper whose hinter does not panic"],
-    "level_text": "Lean theorems about the editor model, for every state, pending count and direction: every argument-free entry of the README tables — emacs mode, vi command mode, vi insert mode, each with the all-modes table — is mapped by the model's keymap (emacs / viCommand / viInsert) to the Cmd denoting the documented action resolved with the GNU count/direction conventions, the line untouched (C01_binding_table_emacs, _emacs_common, _vi_command, _vi_insert); for every operator d/c/y and every entry of the motion table viCmdMotion builds the documented movement, the count before the operator multiplied by the count before the motion, f/t/F/T + char remembered, the doubled operator = whole line (C01_vi_operator_motion, _counts, _char_search, _doubled); a custom-bound key yields exactly the bound command in all three keymaps, a bound two-key sequence its command and a non-completing pair none (C01_custom_binding_*, C01_custom_seq_binding, _fallback); the count handed to a command after M-[-]d1..dk is the signed decimal value, first four significant digits (C01_numeric_argument, C01_arg_value_*); a printable character is inserted exactly once at the cursor with any helper whose hinter does not panic (C01_self_insert_once; the unrestricted statement is refuted); no Move command changes the text (C01_motion_pure); C-c / C-d on the empty line / Enter on an accepted text end the read as documented at the step level, at the level of one main-loop iteration, from the decoded key in emacs mode and in the vi modes, and the value of readline is the text of the submitting state (C01_outcome_step, C01_outcome, C01_outcome_emacs_keys, C01_outcome_vi_keys, C01_outcome_readline). The editor model is diffed against the real Editor::readline on a pty, and the documented-meaning oracle (README tables as data, declarative C04 targets) runs on the implementation's callbacks for every generated script. Executing the denoted Cmd has the documented effect (C01_execute_refines_move / _kill / _change / _yank / _insert and the summary C01_execute_refines over the resolved actions): from a state with a well-formed growable line, a kill ring within bounds, a hinter that does not panic, a stable segmenter with the line break a cluster of its own, execute returns with status proceed and the line (text and cursor) is the one Act.apply — the oracle's declarative semantics — prescribes; C01_key_to_effect_emacs / _vi_command / _vi_insert chain the table theorems with it: from the decoded key of a README table to the effect on (text, cursor). `^` as a motion and as a range is covered since the repair of D46. The kill family has no caveat any more: a kill that leaves the text alone leaves the cursor alone, for every movement (kill_nothing_keeps_cursor). vi r with a count is covered where Act.apply judges it (C01_execute_refines_replace_char under JudgedReplace: n clusters present, n <= 65535, and one cluster back from the end of the inserted copies is the start of the last copy). C01_history_keys: C-p / C-n / M-< / M-> denote the commands whose effect on the store C07 proves (composed with C07_prev/next/first/last_refines_store). Not covered by these theorems (oracle and C04 only): the BeforeEnd word targets (known finding F-C04-vi-e-count), case changes (M-u M-l M-c) and transpose-chars (their declarative results re-segment the edited text; not carried out); Act has no put actions (C-y, p, P are C06's).",
+    "level_text": "Lean theorems about the editor model, for every state, pending count and direction: every argument-free entry of the README tables — emacs mode, vi command mode, vi insert mode, each with the all-modes table — is mapped by the model's keymap (emacs / viCommand / viInsert) to the Cmd denoting the documented action resolved with the GNU count/direction conventions, the line untouched (C01_binding_table_emacs, _emacs_common, _vi_command, _vi_insert); for every operator d/c/y and every entry of the motion table viCmdMotion builds the documented movement, the count before the operator multiplied by the count before the motion, f/t/F/T + char remembered, the doubled operator = whole line (C01_vi_operator_motion, _counts, _char_search, _doubled); a custom-bound key yields exactly the bound command in all three keymaps, a bound two-key sequence its command and a non-completing pair none (C01_custom_binding_*, C01_custom_seq_binding, _fallback); the count handed to a command after M-[-]d1..dk is the signed decimal value, first four significant digits (C01_numeric_argument, C01_arg_value_*); a printable character is inserted exactly once at the cursor with any helper whose hinter does not panic (C01_self_insert_once; the unrestricted statement is refuted); no Move command changes the text (C01_motion_pure); C-c / C-d on the empty line / Enter on an accepted text end the read as documented at the step level, at the level of one main-loop iteration, from the decoded key in emacs mode and in the vi modes, and the value of readline is the text of the submitting state (C01_outcome_step, C01_outcome, C01_outcome_emacs_keys, C01_outcome_vi_keys, C01_outcome_readline). The editor model is diffed against the real Editor::readline on a pty, and the documented-meaning oracle (README tables as data, declarative C04 targets) runs on the implementation's callbacks for every generated script. Executing the denoted Cmd has the documented effect (C01_execute_refines_move / _kill / _change / _yank / _insert and the summary C01_execute_refines over the resolved actions): from a state with a well-formed growable line, a kill ring within bounds, a hinter that does not panic, a stable segmenter with the line break a cluster of its own, execute returns with status proceed and the line (text and cursor) is the one Act.apply — the oracle's declarative semantics — prescribes; C01_key_to_effect_emacs / _vi_command / _vi_insert chain the table theorems with it: from the decoded key of a README table to the effect on (text, cursor). `^` as a motion and as a range is covered since the repair of D46. The kill family has no caveat any more: a kill that leaves the text alone leaves the cursor alone, for every movement (kill_nothing_keeps_cursor). vi r with a count is covered where Act.apply judges it (C01_execute_refines_replace_char under JudgedReplace: n clusters present, n <= 65535, and one cluster back from the end of the inserted copies is the start of the last copy). C01_history_keys: C-p / C-n / M-< / M-> denote the commands whose effect on the store C07 proves (composed with C07_prev/next/first/last_refines_store). The case changes M-u / M-l / M-c are covered without side condition (C01_execute_refines_case: edit_word = editWordWant for every stable segmenter: skip_whitespace is the declarative skip, the word end found from the word start is the end of the alphanumeric run, the replacement is mapWord). C-t is covered in the situations of JudgedTranspose (C01_execute_refines_transpose: nothing to transpose, or the cursor strictly inside the text between clusters g1|g2 with g1 still a cluster when the text after g2 follows it). Not covered by these theorems (oracle and C04 only): the BeforeEnd word targets (known finding F-C04-vi-e-count), C-t with the cursor at the end of the text (the last-two-clusters case) or when the side condition fails; Act has no put actions (C-y, p, P are C06's).",
     "level_note": "Trusted: Lean kernel; pty harness; hand transcription of the README tables and byte encodings; the oracle stops judging where it cannot follow the key grouping. Reading decisions: vi C-d on a non-empty line, counts of 0, a minus typed after digits, `^` on a blank line, n-th character search with fewer than n occurrences, `a` with a count are not judged.",
     "assumptions": ["keyseq_timeout = None (default)"],
 }
